@@ -133,6 +133,33 @@ impl Part {
     }
 }
 
+impl Part {
+    /// Size ladder (DESIGN 2.8a): every exact number of functions in `lo..=hi`,
+    /// `reps` pseudo-random cases of the property's own generator each.
+    fn add_ladder(&mut self, prop: &str, lo: usize, hi: usize, reps: u64, workers: u64, known: &Findings, make: &(dyn Fn(usize) -> Box<dyn Check> + Sync)) {
+        if !self.violations.is_empty() || std::env::var("FG_NO_LADDER").is_ok() {
+            return;
+        }
+        let sizes: Vec<usize> = (lo..=hi).collect();
+        let kf = |v: &Violation, d: &Value| known.classify(prop, v, d);
+        let t = Instant::now();
+        let l = fgverif::driver::size_ladder(prop, &sizes, reps, seed(), workers as usize, make, &kf);
+        self.engines.push(json!({
+            "engine": "size ladder: every exact number of functions in the range, pseudo-random cases of the property's own generator (graph shape, declarations, options, schedule) per size; tapes are a pure function of (seed, size, repetition)",
+            "sizes": format!("{}..={}", l.sizes.0, l.sizes.1),
+            "cases_per_size": reps,
+            "cases_run": l.stats.evaluations,
+            "rng_seed": seed(),
+            "wall_s": t.elapsed().as_secs_f64(),
+        }));
+        self.stats.merge(l.stats);
+        if let Some(f) = l.failure {
+            let path = write_replay(prop, &f);
+            self.violations.push((f.violation.clone(), path));
+        }
+    }
+}
+
 fn known_lines(prop: &str, known: &Findings) -> bool {
     // For every open finding: replay the stored reproducer and report it.
     let mut ok = true;
@@ -333,6 +360,14 @@ fn run_prop(prop: &'static str, thorough: bool) -> Part {
                 part.violations.push((v, p));
             }
         }
+        {
+            let (hi, reps) = if thorough { (600, 30) } else { (330, 6) };
+            part.add_ladder(prop, 41, hi, reps, workers, &known, &|n| {
+                let mut c = SingleCheck::new(prop, thorough);
+                c.profile.force_n = Some(n);
+                Box::new(c)
+            });
+        }
         let check = SingleCheck::new(prop, thorough);
         part.add_search(prop, &check, cases, workers, &known);
         if prop == "C05" && !INTR {
@@ -354,6 +389,14 @@ fn run_prop(prop: &'static str, thorough: bool) -> Part {
         #[cfg(feature = "async_apis")]
         "C15" => {
             let mut part = Part::new(multi::HISTORY_RULE);
+            {
+                let (hi, reps) = if thorough { (330, 12) } else { (270, 4) };
+                part.add_ladder(prop, 25, hi, reps, workers, &known, &|n| {
+                    let mut c = HistoryCheck::new(thorough);
+                    c.profile.force_n = Some(n);
+                    Box::new(c)
+                });
+            }
             let check = HistoryCheck::new(thorough);
             part.add_search(prop, &check, cases, workers, &known);
             part.assumptions = vec!["differential oracle: the last run of a history is replayed action by action on a freshly built graph; equality of Start/End/Quiet traces and returned values".into()];
@@ -376,6 +419,14 @@ fn run_prop(prop: &'static str, thorough: bool) -> Part {
                     let p = write_replay(prop, &f);
                     part.violations.push((v, p));
                 }
+            }
+            {
+                let (hi, reps) = if thorough { (330, 12) } else { (270, 4) };
+                part.add_ladder(prop, 25, hi, reps, workers, &known, &|n| {
+                    let mut c = MultiCheck::new(thorough);
+                    c.profile.force_n = Some(n);
+                    Box::new(c)
+                });
             }
             let check = MultiCheck::new(thorough);
             part.add_search(prop, &check, cases, workers, &known);
@@ -509,6 +560,14 @@ fn run_prop(prop: &'static str, thorough: bool) -> Part {
                     let p = write_replay(prop, &f);
                     part.violations.push((v, p));
                 }
+            }
+            if prop != "C18" {
+                let (hi, reps) = if thorough { (700, 20) } else { (340, 6) };
+                part.add_ladder(prop, 33, hi, reps, workers, &known, &|n| {
+                    let mut c = BuildCheck::new(prop, thorough, cap);
+                    c.force_n = Some(n);
+                    Box::new(c)
+                });
             }
             let check = BuildCheck::new(prop, thorough, cap);
             if !(prop == "C17" && !part.violations.is_empty()) {
